@@ -82,7 +82,9 @@ def documents(rng, n, depth=4, deep_every=25, f32=False):
     look = ["2021-01-02T03:04:05Z", "1979-05-27T07:32:00-08:00", "2021-01-02T03:04:05.678+00:00", "1979-05-27", "07:32:00",
             "2021-01-02 03:04:05Z", "true", "false", "null", "~", "", "1", "-0", "1.5", "1e3", ".inf", "-.INF", ".nan", "0x1F", "0o17",
             "1_000", "+1", "yes", "no", "on", "off", "NaN", "Infinity", "inf", "nan", "[1]", "{a: 1}", "# c", "a: b", "- x",
-            "a\ufeffb", "ab\ufeff", " lead", "trail ", "\u00e9", "\U0001f600", "\u2028", "\x7f", "\x85"]
+            "a\ufeffb", "ab\ufeff", " lead", "trail ", "\u00e9", "\U0001f600", "\u2028", "\x7f", "\x85",
+            # strings that are YAML syntax when they stand alone as a key or a value (merge key, tags, anchors, indicators)
+            "<<", "=", "!", "!!str", "&a", "*a", "?", "|", ">", "%", "@", "`", "-", ":", "---", "..."]
     for fmt in FORMATS:
         for v in ({"strs": look, "nested": [{"t": s} for s in look[:8]]}, {"keys": {s: i for i, s in enumerate(look)}}):
             try:
@@ -110,9 +112,31 @@ def documents(rng, n, depth=4, deep_every=25, f32=False):
                 out.append((fmt, v, gen.spell_canonical(v, fmt)))
             except Exception:
                 continue
-    # collections longer than any 16-bit length field or pre-allocation cap
+    # a merge-key-shaped entry whose value is a map, a sequence of maps, a scalar
+    for fmt in FORMATS:
+        for v in ({"<<": {"a": 1}, "b": 2}, {"ops": {"<<": "left"}, "list": [{"<<": [{"x": 1}, {"y": 2}]}]}):
+            try:
+                t = gen.spell_canonical(v, fmt)
+                back = gen.read_documents(t, fmt)
+                if len(back) == 1 and gen.values_equal(back[0], v):
+                    out.append((fmt, v, t))
+            except Exception:
+                continue
+    # nesting at the depth the properties quantify up to (64), in one shape only: all maps, all arrays; innermost non-empty
+    for fmt in ("json", "msgpack", "yaml"):
+        for d in (63, 64):
+            vm, va = {"k": 1}, [1]
+            for _ in range(d):
+                vm, va = {"m": vm}, [va]
+            for v in (vm, {"a": va}):
+                try:
+                    out.append((fmt, v, gen.spell_canonical(v, fmt)))
+                except (RecursionError, Exception):
+                    continue
+    # collections longer than any 16-bit length field or pre-allocation cap (40 000, 33 000), and longer than 65 536
     for fmt in ("msgpack", "json"):
-        for v in ({"arr": [i % 10 for i in range(40000)]}, {"m": {"k%d" % i: i % 3 for i in range(33000)}}):
+        for v in ({"arr": [i % 10 for i in range(40000)]}, {"m": {"k%d" % i: i % 3 for i in range(33000)}},
+                  {"arr": [i % 7 for i in range(70000)]}, {"m": {"k%d" % i: i % 3 for i in range(66000)}}):
             try:
                 t = gen.spell_canonical(v, fmt)
                 out.append((fmt, v, t))
